@@ -579,7 +579,7 @@ class _FragmentCompiler:
                         data = emitter.def_var("write_data", f"({(1 << len(port._data)) - 1:#x} & {data})")
                         en = rhs(Cat(bit.replicate(port._granularity) for bit in port._en))
                         en = emitter.def_var("write_en", f"({(1 << len(port._data)) - 1:#x} & {en})")
-                        emitter.append(f"slots[{memory_index}].write({addr}, {data}, {en})")
+                        emitter.append(f"slots[{memory_index}].write({addr}, {data}, {en}, port={idx})")
                         write_vals[idx] = addr, data, en
 
                     for port in fragment._read_ports:
